@@ -5,3 +5,4 @@ import PptxModel.Model.PackUri
 import PptxModel.Props.C19
 import PptxModel.Model.Geometry
 import PptxModel.Props.C17
+import PptxModel.Props.C14
